@@ -6,6 +6,7 @@ use std::ffi::c_int;
 use std::io::{self, Write};
 use std::ptr::{self, NonNull, null_mut};
 use std::slice;
+use std::sync::{Mutex, PoisonError};
 
 use memchr_rs::memchr;
 
@@ -76,6 +77,15 @@ impl VirtualMemory for UnixVirtualMemory {
     }
 }
 
+/// Size the line buffer starts with, and the most one `read(2)` takes from standard input.
+const STDIN_CHUNK: usize = 8 * KIBI;
+
+/// Bytes already taken from standard input that follow the line returned by the previous
+/// `read_line` call. One `read(2)` can deliver more than one line (pipes, files, pasted
+/// text), so whatever comes after the newline must be kept for the next call.
+/// Never longer than `STDIN_CHUNK`.
+static PENDING: Mutex<Vec<u8>> = Mutex::new(Vec::new());
+
 pub struct UnixStdin;
 
 impl Stdin for UnixStdin {
@@ -83,17 +93,35 @@ impl Stdin for UnixStdin {
         print!("{prompt}");
         io::stdout().flush()?;
 
-        let mut cap = 8 * KIBI;
+        let mut pending = PENDING.lock().unwrap_or_else(PoisonError::into_inner);
+
+        let mut cap = STDIN_CHUNK;
         let mut buf = ArenaString::with_capacity_in(cap, arena);
-        let mut len = 0;
+        // Start with what the previous call read past its own line.
+        unsafe { buf.as_mut_vec().extend_from_slice(&pending) };
+        let mut len = pending.len();
+        pending.clear();
+        // The first `scanned` bytes are known to contain no newline.
+        let mut scanned = 0;
 
         loop {
+            let hay = unsafe { slice::from_raw_parts(buf.as_ptr(), len) };
+            let index = memchr(b'\n', hay, scanned);
+            if index < len {
+                pending.extend_from_slice(&hay[index + 1..]);
+                len = index;
+                break;
+            }
+            scanned = len;
+
             if len == cap {
                 cap *= 2;
-                buf.reserve_exact(cap - buf.capacity());
+                // `reserve_exact` counts from the vector's length.
+                unsafe { buf.as_mut_vec().set_len(len) };
+                buf.reserve_exact(cap - len);
             }
 
-            let count = cap - len;
+            let count = (cap - len).min(STDIN_CHUNK);
             let base = buf.as_ptr();
 
             let n = unsafe {
@@ -106,16 +134,8 @@ impl Stdin for UnixStdin {
                 // EOF
                 break;
             }
-            let n = n.cast_unsigned();
 
-            len += n;
-
-            let hay = unsafe { slice::from_raw_parts(base, len) };
-            let index = memchr(b'\n', hay, len - n);
-            if index < len {
-                len = index;
-                break;
-            }
+            len += n.cast_unsigned();
         }
 
         unsafe {
